@@ -104,7 +104,7 @@ def follow(states, start, path):
     return cur
 
 
-def native_search(start, target_name):
+def native_search(start, target_name, debug=False):
     """Run the REAL StateMachineState.search natively: -> (list of transition names | None, 'returned' | 'raised <Type>')."""
     from replay.native import repo_import
 
@@ -114,7 +114,11 @@ def native_search(start, target_name):
     inst.name = "design"
     inst._history = [cls.state_id()]
     try:
-        got = inst.search(getattr(sm.StateId, target_name), debug=False)
+        import contextlib
+        import io
+
+        with contextlib.redirect_stdout(io.StringIO()):
+            got = inst.search(getattr(sm.StateId, target_name), **({} if debug is None else {"debug": debug}))
         return (list(got) if isinstance(got, (list, tuple)) else None), "returned"
     except Exception as e:
         return None, f"raised {type(e).__name__}"
@@ -131,11 +135,12 @@ def check_search(run, fn):
     run.prove("C18.py.graph.extracted", [], z3.BoolVal(ok_graph), function=fn)
     for start, info in sorted(states.items()):
         inst = SObj(info["cls"], {"name": "design", "_history": PyList([info["id"]])}, start.lower())
-        for tid in ids:
+        for tid, dbg in [(t, d) for t in ids for d in (False, None, True)]:
+            # the optional `debug` flag only adds printing: explicit False, the default (omitted) and explicit True give the same path
             want = bfs(states, start, tid)
-            name = f"C18.py.search[{start}->{tid.name}]"
+            name = f"C18.py.search[{start}->{tid.name}]" + ("" if dbg is False else ("[debug_default]" if dbg is None else "[debug_on]"))
             try:
-                got = I.call(I.getattr(inst, "search"), [tid], {"debug": False})
+                got = I.call(I.getattr(inst, "search"), [tid], {} if dbg is None else {"debug": dbg})
                 got_list = list(got.items) if isinstance(got, PyList) else None
                 outcome = "returned"
             except PyRaise as e:
@@ -144,7 +149,7 @@ def check_search(run, fn):
                 # a construct outside the interpreter's subset: the real function is run natively instead (the state space is finite,
                 # so this is still exhaustive); recorded as a bounded stand-in, not as a proof
                 run.undecided.append(f"{name} (interpreter: {u}; decided by running the real search natively)")
-                got_list, outcome = native_search(start, tid.name)
+                got_list, outcome = native_search(start, tid.name, dbg)
             if want is None:
                 good = outcome == "raised ValueError"
                 ob = run.prove(name + ".unreachable_raises_ValueError", [], z3.BoolVal(good), function=fn)
@@ -157,7 +162,7 @@ def check_search(run, fn):
                 good = reaches and shortest
                 detail = f"search from {start} to {tid.name}: {outcome} {got_list}; a shortest path is {want}"
             if not good:
-                run.findings.append(Finding(ob.name, f"{start}->{tid.name}", detail, {"language": "python", "inputs": {"start": start, "target": tid.name}, "oracle_verdict": detail}, True))
+                run.findings.append(Finding(ob.name, f"{start}->{tid.name}", detail, {"language": "python", "inputs": {"start": start, "target": tid.name, "debug": dbg}, "oracle_verdict": detail}, True))
         for bad, label in (("Fit_Model", "a string"), (2, "an int"), (None, "None"), (info["cls"], "a state class")):
             try:
                 I.call(I.getattr(inst, "search"), [bad], {"debug": False})
